@@ -274,7 +274,11 @@ structure DSt where
   mismatches : Nat := 0
   specfails : Nat := 0
 
-def DSt.mark (d : DSt) (line : String) : DSt := { d with seen := d.seen.insert (hash (line.splitOn " | ").head!) }
+def DSt.mark (d : DSt) (line : String) : DSt :=
+  -- take the set out of the structure first so that the insert finds it unshared (no copy per insert)
+  let s := d.seen
+  let d := { d with seen := {} }
+  { d with seen := s.insert (hash (line.splitOn " | ").head!) }
 
 def report (d : DSt) (n : Nat) (kind what : String) : IO DSt := do
   let first := !d.mismatchKinds.contains kind
@@ -540,7 +544,9 @@ def handleU (d : DSt) (n : Nat) (line : String) (pre post : List String) : IO DS
       match sanitiseSpec inp out with
       | some cl => d ← specfail d n cl
       | none => pure ()
-      if out != inp then d := { (d.mark line) with uChanged := d.uChanged + 1 }
+      if out != inp then
+        d := d.mark line
+        d := { d with uChanged := d.uChanged + 1 }
       return d
     | _, _ => bad d n
   | _, _ => bad d n
